@@ -342,8 +342,14 @@ def record_bits_rule(chk, prog, rule="RECBITS", field="assembly_opt"):
                 v = ce.try_eval(r)
                 if v is not None:
                     chk.bad(rule, key, loc_str(m), want, "the copy is overwritten with the constant %#x: %s" % (v, expr_str(m)))
-                else:
+                    continue
+                # a bitwise expression over the old value of the copy (or a local that holds it) and constants: bit i of the result
+                # then depends on bit i of the old value only; it is unchanged iff old=0 gives 0 and old=1 gives 1
+                touched = _bitwise_touched(prog, f, r, field)
+                if touched is None:
                     chk.broken(rule, key, loc_str(m), want, "cannot tell which bits %s changes" % expr_str(m)[:80])
+                else:
+                    chk.require(not (touched & sib), rule, key, loc_str(m), want, "%s changes bits %#x" % (expr_str(m), touched & 0xff))
                 continue
             v = ce.try_eval(r)
             if v is None:
@@ -360,3 +366,46 @@ def record_bits_rule(chk, prog, rule="RECBITS", field="assembly_opt"):
             chk.require(not (touched & sib), rule, key, loc_str(m), want, "%s changes bits %#x" % (expr_str(m), touched & 0xff))
     chk.floor("stores into the per-line option copy", n, 2)
     return n
+
+
+def _bitwise_touched(prog, f, e, field):
+    """bits of `field` that the value of expression e can differ in from the old field value; None if e is not a bitwise
+    combination of the old value and constants"""
+    from .core import kids, strip, walk, ConstEval, ref_name
+    aliases = set()
+    assigned = set()
+    for m in walk(prog.body(f)):
+        if m.get("kind") in ("BinaryOperator", "CompoundAssignOperator") and m.get("opcode", "").endswith("=") and \
+                m.get("opcode") not in ("==", "!=", "<=", ">=") and strip(kids(m)[0]).get("kind") == "DeclRefExpr":
+            assigned.add(ref_name(strip(kids(m)[0])))
+    for m in walk(prog.body(f)):
+        if m.get("kind") == "VarDecl" and kids(m) and m["name"] not in assigned:
+            i0 = strip(kids(m)[-1], casts=True)
+            if i0.get("kind") == "MemberExpr" and i0.get("name") == field:
+                aliases.add(m["name"])
+    ce = ConstEval(prog)
+
+    def ev(n, old):
+        n = strip(n, casts=True)
+        v = ce.try_eval(n)
+        if v is not None:
+            return v & 0xffffffff
+        k = n.get("kind")
+        if k == "MemberExpr" and n.get("name") == field:
+            return old
+        if k == "DeclRefExpr" and ref_name(n) in aliases:
+            return old
+        if k == "BinaryOperator" and n.get("opcode") in ("|", "&", "^"):
+            a, b = ev(kids(n)[0], old), ev(kids(n)[1], old)
+            if a is None or b is None:
+                return None
+            return {"|": a | b, "&": a & b, "^": a ^ b}[n["opcode"]]
+        if k == "UnaryOperator" and n.get("opcode") == "~":
+            a = ev(kids(n)[0], old)
+            return None if a is None else (~a) & 0xffffffff
+        return None
+    r0, r1 = ev(e, 0), ev(e, 0xffffffff)
+    if r0 is None or r1 is None:
+        return None
+    unchanged = (~r0) & r1 & 0xffffffff
+    return (~unchanged) & 0xffffffff
